@@ -1,9 +1,135 @@
 import Driver.Util
-open Lean
+import Torf.Spec.MagnetHash
+open Lean Torf Torf.Magnet
 namespace Driver.C14
 
-/-- ops of property C14: `c14.<name>` -/
-def handle (op : String) (_j : Json) : Except String Json :=
-  throw s!"unknown op {op}"
+def cpsOfJson (j : Json) : Except String Str := do
+  let a ← j.getArr?
+  a.toList.mapM fun x => do let n ← x.getNat?; pure (Char.ofNat n)
+def getCps (j : Json) (k : String) : Except String Str := do cpsOfJson (← j.getObjVal? k)
+def getOptCps (j : Json) (k : String) : Except String (Option Str) := do
+  match j.getObjVal? k with
+  | .ok Json.null => pure none
+  | .ok v => some <$> cpsOfJson v
+  | .error _ => pure none
+def getCpsList (j : Json) (k : String) : Except String (List Str) := do
+  (← getArr j k).mapM cpsOfJson
+def jcps (s : Str) : Json := jnats (s.map Char.toNat)
+def jerr : Option MErr → Json
+  | none => Json.null
+  | some .magnet => "magnet"
+  | some .url => "url"
+  | some .metainfo => "metainfo"
+  | some (.internal t) => jstr ("internal:" ++ t)
+def jexc (f : α → Json) : Except MErr α → Json
+  | .ok a => jobj [("ok", f a)]
+  | .error e => jobj [("err", jerr (some e))]
+
+def stepOf (entry : String) (v : Str) : Except String HashOp :=
+  match entry with
+  | "xt" | "ctor" => pure (.xt v)
+  | "infohash" => pure (.infohash v)
+  | _ => throw s!"bad entry {entry}"
+
+/-- `c14.hash`: one assignment from a prior state. -/
+def hash (j : Json) : Except String Json := do
+  let v ← getCps j "v"
+  let prior ← getOptCps j "prior"
+  let entry ← getStr j "entry"
+  let op ← stepOf entry v
+  let r := stepHash prior op
+  let accept := if entry == "infohash" then infohashAccepts v else xtAccepts v
+  let stored := if entry == "infohash" then v else xtStored v
+  let specState := if accept then some stored else prior
+  let b16 : Json := match r.1, r.2 with
+    | none, some s => jexc jcps (infohashAsBase16 s)
+    | _, _ => Json.null
+  let specB16 : Json := if accept then jcps (hexLower40 (hashVal stored)) else Json.null
+  return jobj [("model", jobj [("err", jerr r.1), ("state", jopt jcps r.2), ("base16", b16)]),
+               ("spec", jobj [("accept", jbool accept), ("state", jopt jcps specState), ("base16", specB16)]),
+               ("hyp", jbool (NoFold v))]
+
+/-- `c14.history`: a history of assignments. -/
+def history (j : Json) : Except String Json := do
+  let prior ← getOptCps j "prior"
+  let ops ← (← getArr j "ops").mapM fun o => do
+    let e ← getStr o "entry"
+    let v ← getCps o "v"
+    stepOf e v
+  let r := runHash prior ops
+  let hyp := ops.all fun | .xt v => NoFold v | .infohash v => NoFold v
+  return jobj [("model", jobj [("errs", jarr (r.1.map jerr)), ("state", jopt jcps r.2)]),
+               ("hyp", jbool hyp)]
+
+/-- `c14.xl`: value = null | {"int": i} | {"raise": true} -/
+def xl (j : Json) : Except String Json := do
+  let prior : Option Int := (j.getObjValAs? Int "prior").toOption
+  let value ← j.getObjVal? "value"
+  let v : Option IntResult ← match value with
+    | Json.null => pure none
+    | o => match o.getObjValAs? Int "int" with
+      | .ok i => pure (some (some i))
+      | .error _ => pure (some none)
+  let r := setXl prior v
+  let accept : Bool := match v with | none => true | some none => false | some (some i) => decide (1 ≤ i)
+  return jobj [("model", jobj [("err", jerr r.1), ("state", jopt jint r.2)]),
+               ("spec", jobj [("accept", jbool accept)]), ("hyp", jbool true)]
+
+/-- `c14.urls`: list setter (tr/ws) and single setter (xs/as_) with `is_url` given per item -/
+def urls (j : Json) : Except String Json := do
+  let prior ← getCpsList j "prior"
+  let vs ← getCpsList j "vs"
+  let valid ← getCpsList j "valid"
+  let isUrl : Str → Bool := fun s => valid.contains s
+  let r := setUrls isUrl prior vs
+  let single : Json := match vs with
+    | [v] => let r1 := setUrl isUrl prior.head? (some v)
+             jobj [("err", jerr r1.1), ("state", jopt jcps r1.2)]
+    | _ => Json.null
+  return jobj [("model", jobj [("err", jerr r.1), ("state", jarr (r.2.map jcps)), ("single", single)]),
+               ("spec", jobj [("accept", jbool (vs.all isUrl))]), ("hyp", jbool true)]
+
+/-- `c14.getinfo` -/
+def getinfo (j : Json) : Except String Json := do
+  let ih ← getCps j "ih"
+  let xs ← getOptCps j "xs"
+  let as_ ← getOptCps j "as_"
+  let ws ← getCpsList j "ws"
+  let tr ← (← getArr j "tr").mapM fun t => do
+    let a ← t.getArr?
+    match a.toList with
+    | [s, n] => do pure ((← cpsOfJson s), (← cpsOfJson n))
+    | _ => throw "tr: pairs expected"
+  let validate ← getBool j "validate"
+  let served ← (← getArr j "served").mapM fun s => do
+    let k ← getStr s "kind"
+    match k with
+    | "connError" => pure Served.connError
+    | "unreadable" => pure Served.unreadable
+    | "torrent" => do pure (Served.torrent (← getCps s "infohash") (← getBool s "nonEmpty"))
+    | _ => throw "served kind"
+  let urls := torrentUrls ih { xs := xs, as_ := as_, ws := ws, tr := tr }
+  let res := getInfo validate ih served 0
+  let jres : Json := match res with
+    | .raised e k => jobj [("kind", "raised"), ("err", jerr (some e)), ("consulted", jnat k)]
+    | .adopted h k => jobj [("kind", "adopted"), ("infohash", jcps h), ("consulted", jnat k)]
+    | .nothing k => jobj [("kind", "nothing"), ("consulted", jnat k)]
+  let ownVal := hashVal ih
+  let enc := jcps (hashBytesEnc ownVal)
+  return jobj [("model", jobj [("urls", jexc (fun us => jarr (us.map jcps)) urls), ("result", jres)]),
+               ("spec", jobj [("hashEnc", enc),
+                              ("matches", jarr (served.map fun s => match s with
+                                | .torrent h _ => jbool (LowerHex40 h && hashVal h == ownVal)
+                                | _ => Json.null))]),
+               ("hyp", jbool (validHash ih))]
+
+def handle (op : String) (j : Json) : Except String Json :=
+  match op with
+  | "c14.hash" => hash j
+  | "c14.history" => history j
+  | "c14.xl" => xl j
+  | "c14.urls" => urls j
+  | "c14.getinfo" => getinfo j
+  | _ => throw s!"unknown op {op}"
 
 end Driver.C14
